@@ -107,7 +107,7 @@ PROPS['C20'] = dict(
 )
 
 PROPS['C08'] = dict(
-    unit_modules=[], driver_modules=['drivers.c08'], level='other',
+    unit_modules=['contracts.c08_coercion'], driver_modules=['drivers.c08'], level='other',
     level_text='tbd', level_note='tbd', assumptions=COMMON_ASSUMPTIONS,
 )
 
